@@ -7,8 +7,8 @@ import vlib, suites, truth
 from fhgen import *
 
 RULE = ("ground-truth scenarios of C01 (all function shapes, depths 1..6, all interruption points) and frame-pointer chains "
-        "of C04, each mapped twice: load deltas (page-granular, up and down, images with non-zero stated base, ranges "
-        "starting above the base address) x stack deltas; three presentations with absolute / pc-relative / data-relative "
+        "of C04 and Mach-O programs of C02, each mapped twice: load deltas (page-granular, up and down, images with non-zero stated base, ranges "
+        "starting above the base address, another image mapped into the gap between a base address and its text) x stack deltas; three presentations with absolute / pc-relative / data-relative "
         "pointer encodings; distinct = (arch, presentation, encoding, shape, delta class)")
 ASSUMPTIONS = ["deltas keep every address inside the 64-bit space", "stack reader is a pure partial function"]
 TRUSTED_BASE = ["pointer-encoding resolution happens inside gimli and is covered by this oracle only (the theorem covers framehop's own address arithmetic)"]
@@ -72,6 +72,85 @@ def generate(rng, tier):
             s.tags[lines[0]] = "%s:%s:%s:%s:%s" % (arch, pres, "pcrel" if enc["pcrel"] else enc["hdr_enc"], inner["func"].shape,
                                                    "hi" if pair[1][1] >= (1 << 63) else ("lo" if pair[1][1] < 0x10000000 else "mid"))
         out.append(("reloc-%s-%d" % (arch, pi), s))
+    # interleaved placements: the text of image A starts far above A's base address, and another image B is mapped
+    # into the gap between A's base and A's text (a non-PIE executable at a low base with a library below its text);
+    # the twin maps B elsewhere.  Lookup must go by the mapped ranges, never by the base addresses.
+    for pi in range(4 if tier == "quick" else 40):
+        arch = "x86" if pi % 2 == 0 else "a64"
+        s = Script(arch, "may" if pi % 4 < 2 else "must")
+        funcs = truth.make_program(rng, arch)
+        span = max(f.start + f.length for f in funcs) + 0x100
+        OFF = 0x100000 * rng.range(1, 4)
+        pres = ["hdr", "eh", "debug"][pi % 3]
+        enc = dict(pcrel=(pres != "debug" and rng.chance(1, 2)), hdr_enc="abs8")
+        order_rng = rng.u64()
+        baseA = [0x10000000 * rng.range(1, 3), 0x50000000 + 0x1000 * rng.below(256)]
+        baseB = [baseA[0] + 0x1000 * rng.range(1, 16), 0x30000000 + 0x1000 * rng.below(256)]     # first placement: inside A's gap
+        names = {}
+        for which in range(2):
+            fa = truth.program_fdes(funcs, 0x400000 + OFF)
+            s.module_dwarf("A%d" % which, baseA[which] + OFF, baseA[which] + OFF + span, baseA[which], 0x400000, pres, fa,
+                           Rng(order_rng), shuffle=True, **enc)
+            fb = truth.program_fdes(funcs, 0)
+            s.module_dwarf("B%d" % which, baseB[which], baseB[which] + span, baseB[which], 0, pres, fb, Rng(order_rng), shuffle=True, **enc)
+        for which in range(2):
+            s.add("new U%d" % which)
+            first, second = ("A", "B") if (pi // 2 + which) % 2 == 0 else ("B", "A")
+            s.add("add U%d %s%d" % (which, first, which)); s.add("add U%d %s%d" % (which, second, which))
+        for k in range(12 if tier == "quick" else 40):
+            inA = k % 2 == 0
+            loads = [(baseA[w] + OFF) if inA else baseB[w] for w in range(2)]
+            depth = rng.range(1, 4)
+            top1, top2 = 0x7fff0000, rng.choice([0x7fff0000, 0x7fff0000 + 0x1000 * rng.range(1, 100)])
+            r1 = clone_rng(rng); sc1 = truth.make_scenario(r1, arch, funcs, loads[0], top1, depth)
+            r2 = clone_rng(rng); sc2 = truth.make_scenario(r2, arch, funcs, loads[1], top2, depth)
+            rng.s = r2.s
+            lines = []
+            for which, sc in enumerate((sc1, sc2)):
+                mid = "G%d_%d" % (k, which)
+                s.mem(mid, sorted(sc["mem"].items()))
+                regs = (s.regs_x86(sc["pc"], sc["regs"]["sp"], sc["regs"]["fp"]) if arch == "x86"
+                        else s.regs_a64((1 << 48) - 1, sc["regs"]["lr"], sc["regs"]["sp"], sc["regs"]["fp"]))
+                s.add("newcache C")
+                lines.append(s.add("trace U%d C %s %s %s %d" % (which, hx(sc["pc"]), regs, mid, len(sc["chain"]) + 4)))
+            s.meta[lines[0]] = {"twin": lines[1], "dm": loads[1] - loads[0], "ds": top2 - top1, "arch": arch, "deps": [lines[1]],
+                                "must_find": len(sc1["chain"])}
+            s.tags[lines[0]] = "%s:%s:gap:%s" % (arch, pres, "A" if inA else "B")
+        out.append(("gap-%s-%d" % (arch, pi), s))
+    # Mach-O images (compact unwind, DWARF-deferred functions, instruction analysis) mapped away from their stated vmaddr
+    import machotruth as mt
+    for pi in range(4 if tier == "quick" else 40):
+        arch = "x86" if pi % 2 == 0 else "a64"
+        s = Script(arch, "may" if pi % 4 < 2 else "must")
+        prog = mt.make_program(rng, arch)
+        base_svma = 0x100000000
+        bases = [0x100000000 + 0x10000 * rng.below(16), 0x100000000 + 0x10000 * rng.range(16, 4096) + (0x200000000 if rng.chance(1, 2) else 0)]
+        if pi % 4 >= 2:
+            bases.reverse()
+        for which in range(2):
+            mt.module_macho(s, "M%d" % which, prog, bases[which], base_svma, clone_rng(rng), merge=(pi % 3 != 0))
+        rng.u64()
+        for which in range(2):
+            s.add("new U%d" % which); s.add("add U%d M%d" % (which, which))
+        mask = (1 << 48) - 1
+        for k in range(24 if tier == "quick" else 100):
+            depth = rng.range(1, 5)
+            top1, top2 = 0x7fff0000, rng.choice([0x7fff0000, 0x10000, 0x7fff0000 + 0x1000 * rng.range(1, 100), (1 << 46) + 0x5550])
+            r1 = clone_rng(rng); sc1 = mt.make_scenario(r1, prog, bases[0], top1, depth)
+            r2 = clone_rng(rng); sc2 = mt.make_scenario(r2, prog, bases[1], top2, depth)
+            rng.s = r2.s
+            lines = []
+            for which, sc in enumerate((sc1, sc2)):
+                mid = "K%d_%d" % (k, which)
+                s.mem(mid, sorted(sc["mem"].items()))
+                x = sc["frames"][0]
+                regs = s.regs_x86(x["pc"], x["sp"], x["fp"]) if arch == "x86" else s.regs_a64(mask, x["lr"], x["sp"], x["fp"])
+                s.add("newcache C")
+                lines.append(s.add("trace U%d C %s %s %s %d" % (which, hx(x["pc"]), regs, mid, len(sc["frames"]) + 3)))
+            f = sc1["frames"][0]["func"]
+            s.meta[lines[0]] = {"twin": lines[1], "dm": bases[1] - bases[0], "ds": top2 - top1, "arch": arch, "deps": [lines[1]]}
+            s.tags[lines[0]] = "%s:macho:%s:%s" % (arch, f.shape, sc1["frames"][0]["phase"])
+        out.append(("macho-reloc-%s-%d" % (arch, pi), s))
     return out
 
 def judge(script, impl):
@@ -95,7 +174,9 @@ def judge(script, impl):
             return item
         ia = [shift(x.strip()) for x in a[5:].split("|")]
         ib = [x.strip() for x in b[5:].split("|")]
-        if ia != ib:
+        if m.get("must_find") and sum(1 for x in ib if x.startswith("ok ra")) < m["must_find"] - 1:
+            bad.append((ln, "walk in the interleaved placement lost frames (%d expected): %s" % (m["must_find"] - 1, b[:400])))
+        elif ia != ib:
             bad.append((ln, "relocated walk is not the original shifted by (load delta %#x, stack delta %#x):\noriginal : %s\nrelocated: %s" % (dm & M64, ds & M64, a[:500], b[:500])))
     return bad
 
